@@ -88,12 +88,14 @@ func (w *World) style(id string, ver int) int {
 	fmt.Fprintf(h, "%d/%s/%d", w.cfg.Seed, id, ver)
 	v := h.Sum32() % 16
 	switch {
-	case v < 7:
+	case v < 6:
 		return 0
-	case v < 11:
+	case v < 9:
 		return 2
-	case v < 14:
+	case v < 12:
 		return 3
+	case v < 14:
+		return 5
 	default:
 		return 4
 	}
